@@ -65,7 +65,7 @@ MUTANTS = [
     # ---------------------------------------------------------------- C11
     ("m11_stamp_even_if_dated_today", "C11", H, "        if note.modify_date != today and note_has_changed:\n", "        if note_has_changed:\n"),
     ("m11_eq_ignores_todo_state", "C11", PG, "            and self.todo_payload == other.todo_payload\n", ""),
-    ("m11_stamp_with_create_date", "C11", H, "        get_thing=lambda _: today_short_date,\n", "        get_thing=lambda n: zdt.to_short_date_spec(n.create_date),\n"),
+    ("m11_stamp_with_create_date", "C11", H, "        get_thing=lambda note: zdt.to_short_date_spec(note.modify_date),\n", "        get_thing=lambda note: zdt.to_short_date_spec(note.create_date),\n"),
     ("m11_old_stamp_not_removed", "C11", H, "        old_modify_date = words.pop(0)\n", "        old_modify_date = words[0]\n"),
     ("m11_stamp_needs_old_stamp_state", "C11", H, "            if zdt.is_short_date_spec(first_word) and rest_of_body.lstrip(\n                \" \"\n            ).startswith(note.zid):\n", "            if old_note is not None and old_note.modify_date != note.create_date:\n"),
     ("m11_three_clock_reads", "C11", H, "            modify_short_date = zdt.to_short_date_spec(today)\n", "            modify_short_date = zdt.to_short_date_spec(dt.date.today())\n"),
